@@ -1,6 +1,7 @@
 From Coq Require Import Extraction ExtrOcamlBasic.
-From PV Require Import Base.IO Compound.CompoundDefs Compound.CompoundCode.
+From PV Require Import Base.IO Compound.CompoundDefs Compound.CompoundCode Compound.CompoundTree.
 Extraction Language OCaml.
 Extraction "extracted/compound.ml" io_witness code_precharge init step step1 compose_step all_events
   seq_ok compound_last ran begun enqs c_cb c_done c_added active log lcount
-  stepB initB bare_of seq_okB compound_lastB.
+  stepB initB bare_of seq_okB compound_lastB
+  initT stepT t_s flatten log_eqb.
